@@ -8,7 +8,7 @@
      FeedEOF        the parser asked for more input and received end of input
      CallbackStmts(n)       the consumer is called with n finished statements, Incomplete() = FALSE
      CallbackIncomplete(n)  the consumer is called while Incomplete() = TRUE (it prints "> "); the
-                            n statements shown are finished but are NOT handed over yet
+                            n statements shown are NOT handed over yet
      CallbackEmpty          the consumer is called with nothing (it prints another "$ ")
    What was typed is described line by line (this is the only thing the contract needs to know
    about the shell language):
@@ -22,8 +22,8 @@
        line (an interactive shell must run `cd /tmp` before it reads what follows); for a last
        line without newline the parser cannot know that the line is over until it has seen the
        end of input, so there the callback follows FeedEOF;
-     * a callback says Incomplete exactly when a statement is open after the line; it then shows
-       the finished statements of the pending group without handing them over;
+     * a callback says Incomplete exactly when a statement is open after the line; what it shows
+       is not handed over;
      * otherwise it hands over ALL finished statements not handed over before (none: empty call);
      * statements are handed over in order, each once; at the end all have been handed over.
 
@@ -62,7 +62,10 @@ ReadOK      == ~eof /\ (fed = 0 \/ prompted \/ ~NlAt(fed))
 CallbackDue == fed > 0 /\ ~prompted /\ (NlAt(fed) \/ eof)
 
 StmtsOK(n)      == CallbackDue /\ ~OpenAt(fed) /\ n > 0 /\ n = Pending
-IncompleteOK(n) == CallbackDue /\ OpenAt(fed) /\ n = Pending
+\* (the statements shown with an Incomplete callback are not handed over; how many of the pending
+\* group the parser already shows is not constrained: with `a <<EOF & b` both a and b are parsed
+\* before the here-document body has been read)
+IncompleteOK(n) == CallbackDue /\ OpenAt(fed) /\ n >= 0
 EmptyOK         == CallbackDue /\ ~OpenAt(fed) /\ Pending = 0
 \* Nothing more is owed: end of input seen, and the last line had its callback -- except that a
 \* last line without newline that finished nothing need not get an (empty) callback.
@@ -98,9 +101,9 @@ CallbackStmts(n) ==
 
 CallbackIncomplete(n) ==
   /\ phase = "run"
-  /\ IF Defect = "incomplete_when_closed" THEN CallbackDue /\ n = Pending ELSE IncompleteOK(n)
+  /\ IF Defect = "incomplete_when_closed" THEN CallbackDue ELSE IncompleteOK(n)
   /\ prompted' = TRUE
-  /\ hist' = Append(hist, [e |-> "incomplete", n |-> n, first |-> ndel + 1, open |-> OpenAt(fed), fed |-> fed])
+  /\ hist' = Append(hist, [e |-> "incomplete", n |-> 0, first |-> ndel + 1, open |-> OpenAt(fed), fed |-> fed])
   /\ UNCHANGED <<lines, fed, ndel, eof, phase>>
 
 CallbackEmpty ==
@@ -117,7 +120,8 @@ Finish ==
 
 Next == \/ \E c \in 0..MaxPerLine, o \in BOOLEAN, nl \in BOOLEAN : FeedLine(c, o, nl)
         \/ FeedEOF
-        \/ \E n \in 0..(MaxLines * MaxPerLine) : CallbackStmts(n) \/ CallbackIncomplete(n)
+        \/ \E n \in 0..(MaxLines * MaxPerLine) : CallbackStmts(n)
+        \/ \E n \in {0, Pending} : CallbackIncomplete(n)    \* what it shows does not matter (not recorded)
         \/ CallbackEmpty
         \/ Finish
 Spec == Init /\ [][Next]_vars
